@@ -1,4 +1,5 @@
 import GrmVerif.Lemmas.Search
+import GrmVerif.Lemmas.RankImpl2
 /-!
 # C06 — repair sequences are the complete minimum-cost set, ranked as documented
 
@@ -8,6 +9,12 @@ configuration yields) and the executable reference `Rec.enumerate` / `Rec.minCos
 search, at the minimum cost, complete at that cost. The real recoverer's reported set must equal
 `refRepairs` (as a set) for every error within the cost cap, and its order is checked against the
 documented ranking.
+
+Post-processing (`Model/RankImpl.lean`, a transcription of `rank_cnds`, `apply_repairs`, `lr_upto`
+and `simplify_repairs` of `lrpar/src/lib/cpctplus.rs`): the second half of this file proves, for
+EVERY output of `collect_repairs` (a list of groups of sequences), every table, every hasher order
+and every `%avoid_insert` set, what the reported list looks like: `rank_keeps_furthest`,
+`simplify_no_trailing_shift`, `simplify_nodup`, `simplify_preserves`, `simplify_ranked`.
 -/
 namespace GrmVerif.C06
 open GrmVerif Rec LR
@@ -138,5 +145,249 @@ theorem refRepairs_spec (G : Grammar) (A : Automaton) (w : List Nat) (cost : Nat
             exact Nat.le_trans (Nat.le_max_right _ _) (this as _)
           · exact ih _ x hx
       exact this _ 0 _ (List.mem_map.mpr ⟨seq', hm', rfl⟩)
+
+/-! ## The post-processing pipeline: `rank_cnds` and `simplify_repairs` -/
+
+open RankImpl
+
+/-- **`rank_cnds` keeps exactly the groups whose first sequence gets furthest.** If `rank_cnds`
+returns (no panic): every group was non-empty and its first sequence was replayed and parsed on
+without a panic; the result is the concatenation, in the order of the search, of exactly those
+groups `g` whose distance (`reachD`: `apply_repairs` on the first sequence, then `lr_upto` up to
+`in_laidx + TRY_PARSE_AT_MOST`) is not exceeded by any group's. -/
+theorem rank_keeps_furthest (G : Grammar) (A : Automaton) (w : List Nat) (win : Nat) (start : Pos)
+    (cnds : List (List Seq)) (out : List Seq) (h : rankCnds G A w win start cnds = some out) :
+    (∀ g ∈ cnds, ∃ d, groupReach G A w win start g = some d) ∧
+    out = (cnds.filter (fun g => cnds.all (fun g' =>
+      decide (reachD G A w win start g' ≤ reachD G A w win start g)))).flatten ∧
+    ∀ s, s ∈ out ↔ ∃ g ∈ cnds, s ∈ g ∧
+      ∀ g' ∈ cnds, reachD G A w win start g' ≤ reachD G A w win start g := by
+  unfold rankCnds at h
+  cases hsc : scoreCnds G A w win start cnds with
+  | none => rw [hsc] at h; cases h
+  | some sc =>
+    rw [hsc] at h
+    simp only [Option.some.injEq] at h
+    obtain ⟨hmap, hall⟩ := scoreCnds_some hsc
+    subst hmap
+    obtain ⟨hle, hatt⟩ := furthest_spec (cnds.map (fun g => (reachD G A w win start g, g)))
+    generalize hF : furthest (cnds.map (fun g => (reachD G A w win start g, g))) = F at h hle hatt
+    have heq : out = (cnds.filter (fun g => cnds.all (fun g' =>
+        decide (reachD G A w win start g' ≤ reachD G A w win start g)))).flatten := by
+      rw [← h]
+      have hle' : ∀ g' ∈ cnds, reachD G A w win start g' ≤ F := by
+        intro g' hg'
+        exact hle (reachD G A w win start g', g') (List.mem_map.mpr ⟨g', hg', rfl⟩)
+      have hcongr : ∀ g ∈ cnds,
+          ((fun p : Nat × List Seq => p.1 == F) ∘ (fun g => (reachD G A w win start g, g))) g =
+          cnds.all (fun g' => decide (reachD G A w win start g' ≤ reachD G A w win start g)) := by
+        intro g hg
+        rw [Bool.eq_iff_iff]
+        simp only [Function.comp, beq_iff_eq, List.all_eq_true, decide_eq_true_eq]
+        constructor
+        · intro e g' hg'; rw [e]; exact hle' g' hg'
+        · intro hmax
+          have hne : cnds.map (fun g => (reachD G A w win start g, g)) ≠ [] := by
+            intro hnil
+            have := List.map_eq_nil_iff.mp hnil
+            rw [this] at hg; cases hg
+          obtain ⟨p, hp, hpf⟩ := hatt hne
+          obtain ⟨g0, hg0, rfl⟩ := List.mem_map.mp hp
+          have h1 := hmax g0 hg0
+          have h2 := hle' g hg
+          simp only at hpf
+          omega
+      rw [List.filter_map, List.flatMap_map, List.filter_congr hcongr]
+      simp only [List.flatMap_id']
+    refine ⟨hall, heq, ?_⟩
+    intro s
+    rw [heq]
+    simp only [List.mem_flatten, List.mem_filter, List.all_eq_true, decide_eq_true_eq]
+    constructor
+    · rintro ⟨g, ⟨hg, hmax⟩, hs⟩; exact ⟨g, hg, hs, hmax⟩
+    · rintro ⟨g, hg, hs, hmax⟩; exact ⟨g, ⟨hg, hmax⟩, hs⟩
+
+/-- `rank_cnds` panics exactly when some group is empty (`rpr_seqs[0]`) or the replay of a first
+sequence runs into a missing goto / an empty stack (or the model's fuel) -/
+theorem rank_panics_iff (G : Grammar) (A : Automaton) (w : List Nat) (win : Nat) (start : Pos)
+    (cnds : List (List Seq)) :
+    rankCnds G A w win start cnds = none ↔ ∃ g ∈ cnds, groupReach G A w win start g = none := by
+  constructor
+  · intro h
+    unfold rankCnds at h
+    cases hsc : scoreCnds G A w win start cnds with
+    | none => exact scoreCnds_none hsc
+    | some sc => rw [hsc] at h; cases h
+  · rintro ⟨g, hg, hn⟩
+    cases hr : rankCnds G A w win start cnds with
+    | none => rfl
+    | some out =>
+      obtain ⟨d, hd⟩ := (rank_keeps_furthest G A w win start cnds out hr).1 g hg
+      rw [hn] at hd; cases hd
+
+/-- **The distance `rank_cnds` measures is the specification's `distance`** (the one
+`refRepairs_spec` speaks of), for a first sequence that applies with plain LR semantics — as every
+sequence of the search does, `search_sequence_valid` — and ends within the window, under a table
+that never shifts end-of-input. -/
+theorem rank_distance_is_spec (G : Grammar) (A : Automaton) (w : List Nat) (hEof : EofNeverShifted G A)
+    (win : Nat) (start c' : Pos) (s : Seq) (rest : List Seq) (hpos : start.pos ≤ w.length)
+    (happ : applySeq G A w start (s.map PRepair.erase) = some c') (hwin : c'.pos ≤ start.pos + win)
+    (d : Nat) (hr : groupReach G A w win start (s :: rest) = some d) :
+    reachD G A w win start (s :: rest) = distance G A w win start (s.map PRepair.erase) := by
+  have := reach_eq_distance hEof hpos happ hwin hr
+  simp only [reachD, hr, Option.getD_some, this]
+
+/-- **No reported sequence ends in a Shift.** -/
+theorem simplify_no_trailing_shift (hs : List Seq → List Seq) (h : HashSetLike hs) (avoid : Nat → Bool)
+    (start : Nat → Nat) (l : List Seq) :
+    ∀ r ∈ simplify hs avoid start l, ∀ k, r.getLast? ≠ some (.shift k) := by
+  intro r hr k
+  obtain ⟨s, _, rfl⟩ := (mem_simplify h avoid start l r).mp hr
+  exact stripTrailing_no_trailing s k
+
+/-- **No sequence is reported twice.** -/
+theorem simplify_nodup (hs : List Seq → List Seq) (h : HashSetLike hs) (avoid : Nat → Bool)
+    (start : Nat → Nat) (l : List Seq) : (simplify hs avoid start l).Nodup :=
+  (simplify_perm hs avoid start l).nodup_iff.mpr (h _).1
+
+/-- **Nothing lost, nothing invented**: the reported sequences are exactly the input sequences with
+their trailing Shifts removed. -/
+theorem simplify_preserves (hs : List Seq → List Seq) (h : HashSetLike hs) (avoid : Nat → Bool)
+    (start : Nat → Nat) (l : List Seq) (r : Seq) :
+    r ∈ simplify hs avoid start l ↔ ∃ s ∈ l, stripTrailing s = r :=
+  mem_simplify h avoid start l r
+
+/-- **Ranked as documented, and the order is a function of the SET of input sequences.**
+(1) Whatever the hasher and the input order: a sequence inserting an `%avoid_insert` token is never
+followed by one that does not, and among sequences of the same kind lengths never decrease (indeed
+the whole list is sorted by the comparison closure `seqLe`).
+(2) When distinct lexemes start at distinct offsets — or all sequences name the lexemes of the input
+from one position on, in order, as `repair_to_parse_repair` makes them — any other hasher order and
+any other list with the same set of stripped sequences (in particular any permutation of the input)
+give the same list in the same order; and whichever algorithm `sort_unstable_by` uses, a sorted
+arrangement of the deduplicated sequences is this list. -/
+theorem simplify_ranked (hs : List Seq → List Seq) (h : HashSetLike hs) (avoid : Nat → Bool)
+    (start : Nat → Nat) (l : List Seq) :
+    (simplify hs avoid start l).Pairwise (fun x y =>
+      (containsAvoidInsert avoid x = true → containsAvoidInsert avoid y = true) ∧
+      (containsAvoidInsert avoid x = containsAvoidInsert avoid y → x.length ≤ y.length) ∧
+      seqLe avoid start x y = true) ∧
+    ((∀ i j, start i = start j → i = j) ∨ (∃ la, ∀ s ∈ l, WellLexed la s = true) →
+      (∀ (hs' : List Seq → List Seq) (l' : List Seq), HashSetLike hs' →
+        (∀ x, x ∈ l'.map stripTrailing ↔ x ∈ l.map stripTrailing) →
+        simplify hs' avoid start l' = simplify hs avoid start l) ∧
+      (∀ (hs' : List Seq → List Seq) (l' : List Seq), HashSetLike hs' → l'.Perm l →
+        simplify hs' avoid start l' = simplify hs avoid start l) ∧
+      (∀ out : List Seq, out.Perm (hs (l.map stripTrailing)) →
+        out.Pairwise (fun x y => seqLe avoid start x y = true) → out = simplify hs avoid start l)) := by
+  refine ⟨?_, ?_⟩
+  · refine (simplify_sorted hs avoid start l).imp ?_
+    intro x y hxy
+    exact ⟨(seqLe_documented hxy).1, (seqLe_documented hxy).2, hxy⟩
+  · intro hyp
+    have hanti : ∀ a b, a ∈ l.map stripTrailing → b ∈ l.map stripTrailing →
+        cmpSeq avoid start a b = .eq → a = b := by
+      intro a b ha hb hab
+      rcases hyp with hinj | ⟨la, hwl⟩
+      · exact cmpSeq_eq_eq hinj hab
+      · obtain ⟨sa, hsa, rfl⟩ := List.mem_map.mp ha
+        obtain ⟨sb, hsb, rfl⟩ := List.mem_map.mp hb
+        exact cmpSeq_eq_eq_of_wellLexed (wellLexed_stripTrailing (hwl sa hsa))
+          (wellLexed_stripTrailing (hwl sb hsb)) hab
+    have hset : ∀ (hs' : List Seq → List Seq) (l' : List Seq), HashSetLike hs' →
+        (∀ x, x ∈ l'.map stripTrailing ↔ x ∈ l.map stripTrailing) →
+        simplify hs' avoid start l' = simplify hs avoid start l := by
+      intro hs' l' h' hset
+      exact (simplify_eq_of_antisymm h h' (fun x => (hset x).symm) hanti).symm
+    refine ⟨hset, ?_, ?_⟩
+    · intro hs' l' h' hp
+      exact hset hs' l' h' (fun x => (hp.map stripTrailing).mem_iff)
+    · intro out hp hsorted
+      refine List.Perm.eq_of_pairwise ?_ hsorted (simplify_sorted hs avoid start l)
+        (hp.trans (simplify_perm hs avoid start l).symm)
+      intro a b ha hb hab hba
+      have ha' : a ∈ l.map stripTrailing := (h _).2 a |>.mp (hp.mem_iff.mp ha)
+      have hb' : b ∈ l.map stripTrailing :=
+        (h _).2 b |>.mp ((simplify_perm hs avoid start l).mem_iff.mp hb)
+      exact hanti a b ha' hb' (Std.OrientedCmp.isLE_antisymm (cmp := cmpSeq avoid start) hab hba)
+
+/-- **A reported list is a fixed point** (the per-error tie of the check): stripping, deduplicating
+and sorting a list that `simplify_repairs` produced gives the list back, in the same order. -/
+theorem simplify_fixed_point (hs : List Seq → List Seq) (h : HashSetLike hs) (avoid : Nat → Bool)
+    (start : Nat → Nat) (l : List Seq) :
+    simplify dedup avoid start (simplify hs avoid start l) = simplify hs avoid start l := by
+  have h1 : (simplify hs avoid start l).map stripTrailing = simplify hs avoid start l :=
+    map_stripTrailing_of_no_trailing (simplify_no_trailing_shift hs h avoid start l)
+  have h2 : dedup (simplify hs avoid start l) = simplify hs avoid start l :=
+    dedup_of_nodup (simplify_nodup hs h avoid start l)
+  show sortSeqs avoid start (dedup ((simplify hs avoid start l).map stripTrailing)) = _
+  rw [h1, h2]
+  exact sortSeqs_of_pairwise (simplify_sorted hs avoid start l)
+
+/-- the whole tail of `CPCTPlus::recover`: what is reported is `simplify_repairs` of what
+`rank_cnds` kept -/
+theorem postProcess_eq (hs : List Seq → List Seq) (h : HashSetLike hs) (avoid : Nat → Bool)
+    (lexStart : Nat → Nat) (G : Grammar) (A : Automaton) (w : List Nat) (win : Nat) (start : Pos)
+    (cnds : List (List Seq)) (out : List Seq)
+    (hp : postProcess hs avoid lexStart G A w win start cnds = some out) :
+    ∃ kept, rankCnds G A w win start cnds = some kept ∧ out = simplify hs avoid lexStart kept := by
+  unfold postProcess at hp
+  cases hr : rankCnds G A w win start cnds with
+  | none => rw [hr] at hp; cases hp
+  | some kept =>
+    rw [hr] at hp
+    simp only at hp
+    refine ⟨kept, rfl, ?_⟩
+    by_cases he : kept.isEmpty = true
+    · rw [if_pos he] at hp
+      simp only [Option.some.injEq] at hp
+      rw [List.isEmpty_iff] at he
+      subst he
+      have : hs [] = [] := by
+        cases hh : hs [] with
+        | nil => rfl
+        | cons a as =>
+          have := ((h []).2 a).mp (by rw [hh]; exact List.mem_cons_self)
+          cases this
+      rw [← hp]
+      simp [simplify, sortSeqs, this]
+    · rw [if_neg he] at hp
+      simp only [Option.some.injEq] at hp
+      exact hp.symm
+
+/-! Tests: the hypotheses are satisfiable, the model computes, and the hypothesis of the second part
+of `simplify_ranked` is needed. -/
+example : HashSetLike dedup := hashSetLike_dedup
+example (la : Nat) (rs : List Repair) : WellLexed la (attach la rs) = true := wellLexed_attach la rs
+example : ∀ i j : Nat, 3 * i + 1 = 3 * j + 1 → i = j := by omega
+
+/-- `S: 'a' 'b'` (tokens a = 0, b = 1, end-of-input = 2; rules ^ = 0, S = 1; productions
+0 = S → a b, 1 = ^ → S) -/
+def exG : Grammar := ⟨3, 2, 2, 1, [(1, [.tok 0, .tok 1]), (0, [.rule 1])], [], []⟩
+def exSt (actions : List Act) (gotos : List (Option Nat)) : StateD := ⟨[], [], [], actions, gotos, [], [], [], false⟩
+def exA : Automaton :=
+  ⟨0, [exSt [.shift 1, .error, .error] [none, some 2], exSt [.error, .shift 3, .error] [none, none],
+       exSt [.error, .error, .accept] [none, none], exSt [.error, .error, .reduce 0] [none, none]], [], []⟩
+example : EofNeverShifted exG exA := by
+  intro st s' h
+  have : st < 4 ∨ 4 ≤ st := by omega
+  rcases this with h4 | h4
+  · have : st = 0 ∨ st = 1 ∨ st = 2 ∨ st = 3 := by omega
+    rcases this with rfl | rfl | rfl | rfl <;> simp [Automaton.action, exA, exSt, exG] at h
+  · have : exA.states[st]? = none := by simp [exA]; omega
+    simp [Automaton.action, this] at h
+/-- input `a a b`, error at the second `a` (state 1 on top): inserting `b` gets nowhere, deleting the
+`a` lets the parse reach the end — only the second group survives -/
+example : rankCnds exG exA [0, 0, 1] 250 ⟨[1, 0], 1⟩ [[[.insert 1]], [[.delete 1, .shift 2], [.delete 1]]] =
+    some [[.delete 1, .shift 2], [.delete 1]] := by decide
+example : rankCnds exG exA [0, 0, 1] 250 ⟨[1, 0], 1⟩ [[[.insert 1]], []] = none := by decide
+example : postProcess dedup (fun _ => false) (fun i => 3 * i + 1) exG exA [0, 0, 1] 250 ⟨[1, 0], 1⟩
+    [[[.insert 1]], [[.delete 1, .shift 2], [.delete 1]]] = some [[.delete 1]] := by decide
+example : simplify dedup (fun t => t == 7) (fun i => 3 * i + 1)
+    [[.insert 7, .shift 4], [.delete 4, .shift 5, .shift 6], [.insert 2, .insert 3], [.delete 4],
+     [.insert 3, .insert 2], [.insert 1, .shift 4, .shift 5]] =
+    [[.insert 1], [.delete 4], [.insert 2, .insert 3], [.insert 3, .insert 2], [.insert 7]] := by decide
+example : simplify dedup (fun _ => false) (fun _ => 0) [[.delete 0], [.delete 1]] ≠
+    simplify dedup (fun _ => false) (fun _ => 0) [[.delete 1], [.delete 0]] := by decide
 
 end GrmVerif.C06
